@@ -53,6 +53,7 @@ type Product struct {
 // gomacro:SQL _SELECT KEY(IdCustomer, Status)
 type Order struct {
 	Id         int64
+	hits       int           // not exported and not a guard: not a column
 	IdCustomer IdCustomer    `gomacro-sql-on-delete:"CASCADE"`
 	Referrer   OptCustomer   `gomacro-sql-foreign:"Customer" gomacro-sql-on-delete:"SET NULL"`
 	Gift       sql.NullInt64 `gomacro-sql-foreign:"Product"`
@@ -68,6 +69,7 @@ type Order struct {
 type OrderLine struct {
 	IdOrder   int64 `gomacro-sql-foreign:"Order" gomacro-sql-on-delete:"CASCADE"`
 	IdProduct int64 `gomacro-sql-foreign:"Product"`
+	seen      bool  // not a column
 	Quantity  int
 	Comment   string
 }
